@@ -2118,6 +2118,49 @@ pub fn generate(seed: u64, g: &GenCfg) -> Trace {
         st.shape = rng.below(2) as u8;
         steps.push(st);
     }
+    // One run in four ends with a tree that *looks* new without being new - every written leaf removed again, so the root is the
+    // empty root while the leaf count and the per-position flags are not those of a fresh tree - followed by a reset, a
+    // re-initialisation or plain further writes.
+    let mut r2 = Prng::new(seed ^ 0xe3b7_11aa);
+    if r2.chance(1, 4) && depth <= 10 {
+        let mut tail: Vec<Op> = Vec::new();
+        if m.leaves.is_empty() {
+            let i = r2.usize_below(m.cap().min(6));
+            tail.push(Op::Set { i, v: Fr::from(7000 + r2.below(50)) });
+        }
+        let mut sim = m.clone();
+        for op in &tail {
+            step_model(&mut sim, op);
+        }
+        if sim.leaves.len() <= 8 {
+            let idx: Vec<usize> = sim.leaves.keys().copied().collect();
+            if idx.len() > 1 && idx.iter().all(|i| *i < 256) && r2.chance(1, 3) {
+                tail.push(Op::Batch { start: 0, vals: Vec::new(), rem: idx });
+            } else {
+                for i in idx {
+                    tail.push(Op::Delete { i });
+                }
+            }
+            match r2.below(4) {
+                0 => tail.push(Op::Reset),
+                1 => {
+                    let n = r2.usize_below(3);
+                    tail.push(Op::Init { vals: (0..n).map(|k| Fr::from(7100 + k as u64)).collect() });
+                }
+                _ => {}
+            }
+            tail.push(Op::Append { v: Fr::from(7200 + r2.below(50)) });
+            if r2.chance(1, 2) {
+                tail.push(Op::Set { i: r2.usize_below(m.cap()), v: Fr::from(7300 + r2.below(50)) });
+            }
+        }
+        for op in tail {
+            step_model(&mut m, &op);
+            let mut st = Step::plain(op);
+            st.shape = r2.below(2) as u8;
+            steps.push(st);
+        }
+    }
     Trace { prop: g.prop.clone(), seed, depth, nodes, store, steps }
 }
 
